@@ -18,7 +18,8 @@ ALPHABET = ["enable", "link_up", "s1f14_ok_latest", "s1f13", "tick", "s1f14_nak_
 
 # timer configurations: the default (T3 > delay) and one where two reply time-outs fit into one delay (T3 << delay), so that
 # a timer armed by an earlier attempt can still be pending when a later attempt has failed
-TIMERS = {"default": (gh.T3, gh.DELAY), "short_t3": (2.0, 10)}
+TIMERS = {"default": (gh.T3, gh.DELAY), "short_t3": (2.0, 10), "wrap": (gh.T3, gh.DELAY)}
+# "wrap": the protocol's transaction counter starts at 2^32 - 1, so the first S1F13 of the handler carries system bytes 0 (a falsy value)
 
 
 def make_handler_class(role, calls, endpoint_box):
@@ -48,6 +49,8 @@ class Harness:
         self.ep = gh.GemEndpoint(role, handler_cls=make_handler_class(role, self.calls, None), t3=self.t3,
                                  establish_communication_timeout=self.delay)
         self.h = self.ep.handler
+        if timers == "wrap":
+            self.h.protocol._system_counter = 2 ** 32 - 1
         self.h.register_stream_function(5, 1, self._user_cb)
         self.viol = []
         self.enabled = False
@@ -366,7 +369,7 @@ def run(ctx):
     d0, d1 = (5, 16) if ctx.thorough else (4, 12)
     states = trans = 0
     parts = []
-    for role, timers in (("equipment", "default"), ("host", "default"), ("equipment", "short_t3"), ("host", "short_t3")):
+    for role, timers in (("equipment", "default"), ("host", "default"), ("equipment", "short_t3"), ("host", "short_t3"), ("equipment", "wrap")):
         name = f"c07-{role}" + ("" if timers == "default" else "-" + timers)
         st = hbfs.search(ctx, run_history, ALPHABET, name, d0, d1, opts={"role": role, "timers": timers})
         parts.append({"role": role, "timers": dict(zip(("T3", "delay"), TIMERS[timers])), **st})
